@@ -99,11 +99,16 @@ def oracle_pair(w, frames, leaves, i, j, pt, fi=None, fj=None):
     return None
 
 
+PINS = ["gwcs/wcs.py::WCS.fix_inputs", "gwcs/wcs.py::WCS.transform", "gwcs/wcs.py::WCS.__call__"]
+
+
 def run(ctx):
     from py2coq import gen_pipeline as G, t2
     ctx.trusted += ["tools/py2coq (fail-closed Python-ast -> Gallina translator) and GW.Base.Py primitives",
                     "tools/checks/C01.py generators, integer-exact leaf models, differ, oracle"]
     ctx.gate()
+    from lib import pins as _pins
+    _pins.check(ctx, PINS)      # hand-modelled beside the T2-translated methods
     try:
         gen_src = G.gen(__import__("lib.common", fromlist=["REPO"]).REPO)
         ctx.oblige("translate: gwcs/wcs.py pipeline methods within the py2coq subset", True)
@@ -111,10 +116,12 @@ def run(ctx):
         gen_src = None
         ctx.oblige("translate: gwcs/wcs.py pipeline methods within the py2coq subset", False, str(e))
     if gen_src is not None:
-        res = ctx.dyn_build("WC01", {"Gen_pipeline": gen_src}, ["C01"], ["Gen_pipeline", "Sem", "Proofs", "Properties"])
+        res = ctx.dyn_build("WC01", {"Gen_pipeline": gen_src}, ["C01"], ["Gen_pipeline", "Sem", "FillTab", "Proofs", "Properties"])
         ctx.oblige("regenerated Gen_pipeline.v type-checks", res.get("Gen_pipeline", (False, ""))[0],
                    res.get("Gen_pipeline", (False, ""))[1][-800:])
         ctx.dyn_theorems("WC01", "Properties", res, THEOREMS)
+        # meaning of the re-insertion table used for fix_inputs in the correspondence (fixed values in place, free inputs in order)
+        ctx.dyn_theorems("WC01", "FillTab", res, ["fill_tab_length", "fill_tab_fixed_in_place", "fill_tab_free_inputs_in_order"])
     # ---- correspondence + oracle -------------------------------------------------------
     rng = ctx.rng
     npipes = 120 if ctx.quick else 1500
